@@ -144,7 +144,8 @@ def stack_ids(walker, kind, ids):
         if kind == "pcnf":
             out.append((bool(e[0]), ids.get((e[1], e[2]), -1)))
         elif kind == "size":
-            out.append((bool(e[0]), ids.get(e[1], -1)))
+            hit = [ids[(m, e[1])] for m in range(6) if (m, e[1]) in ids]
+            out.append((bool(e[0]), hit[0] if hit else -1))
         else:
             out.append((bool(e[0]), ids.get(e[1], -1)))
     return out
